@@ -60,8 +60,15 @@ def run_child(conn, req, fds):
     code = 0
     try:
         vsim_agent.activate(role="py", extra={"via": req["shim_pid"]})
-        cli = jade_cli if req["prog"] == "jade" else jade_internal_cli
-        cli.main(args=req["args"], prog_name=req["prog"], standalone_mode=True)
+        if req["prog"] == "vpy":
+            # component actor: run a harness script inside the pre-imported interpreter
+            import runpy
+
+            sys.argv = list(req["args"])
+            runpy.run_path(req["args"][0], run_name="__main__")
+        else:
+            cli = jade_cli if req["prog"] == "jade" else jade_internal_cli
+            cli.main(args=req["args"], prog_name=req["prog"], standalone_mode=True)
     except SystemExit as e:
         code = e.code if isinstance(e.code, int) else (0 if e.code is None else 1)
     except BaseException:
